@@ -13,7 +13,7 @@
 (* that MUST COMPILE) and, in every reachable state, every applicable      *)
 (* "never" statement (a program that MUST BE REJECTED AT THAT LINE; its    *)
 (* twin is the same program without the last line).  The renderer          *)
-(* (gen/types.py) turns each sequence into Rust source; rustc against the  *)
+(* (gen/typecorpus.py) turns each sequence into Rust source; rustc against the  *)
 (* current tree's rlib is the implementation under test.                   *)
 (***************************************************************************)
 EXTENDS Naturals, Sequences, TLC, Json
@@ -26,7 +26,7 @@ VARIABLES key, g, gx, prog
 
 vars == <<key, g, gx, prog>>
 
-\* lockable objects declared by the program prelude (gen/types.py):
+\* lockable objects declared by the program prelude (gen/typecorpus.py):
 \*   m1, m2 : Mutex<i32>        rw : RwLock<i32>
 \*   ct : LockCollection<(Mutex, Mutex)> (owned tuple)   cv : LockCollection<Vec<&Mutex>> (try_new over references)
 \*   rt : RetryingLockCollection<[Mutex; 2]>   ow : OwnedLockCollection<(Mutex, Mutex)>
